@@ -144,6 +144,11 @@ def run_shard(ctx):
     from mindsdb_sql.parser.ast import Identifier, Select, Star
     acc = ctx.acc
     base = base_statements(ctx.seed, 2500 if ctx.tier == 'quick' else 20000)
+    # long statements: what is compared / copied must not depend on the length of the text
+    base += [('long', 'SELECT ' + ', '.join(f'col_{j} + {j} AS a{j}' for j in range(n)) + ' FROM tbl WHERE ' + ' AND '.join(f'(col_{j} > {j})' for j in range(n // 2)))
+             for n in (30, 80, 200)]
+    base += [('long', 'SELECT x FROM t WHERE y IN (' + ', '.join(f"'v{j}'" for j in range(300)) + ') ORDER BY x, (y) DESC'),
+             ('long', 'INSERT INTO t (a, b) VALUES ' + ', '.join(f"({j}, 'w{j}')" for j in range(120)))]
     prev = None
     for i, (label, text) in enumerate(base):
         if not ctx.mine(i):
@@ -176,14 +181,28 @@ def run_shard(ctx):
                 pass
         # a copy with one changed flag must not be equal if it prints differently, and equal objects print the same
         try:
-            M = A.copy()
-            for p, o in monitors.walk(M):
-                if hasattr(o, 'alias') and hasattr(o, '__dict__') and o is not M:
-                    o.alias = Identifier('zz_alias')
-                    break
-            fails += eq_laws(A, M, acc, 'tree-vs-mutated-copy')
-            if (A == M) is True and A.to_string() != M.to_string():
-                fails.append(({'law': 'equal-trees-print-differently'}, {'a': A.to_string()[:200], 'b': M.to_string()[:200]}))
+            nslots = sum(1 for p, o in monitors.walk(A) if hasattr(o, 'alias') and hasattr(o, '__dict__') and o is not A)
+            # the first, the middle and the last node that can carry an alias / parentheses (the change may sit anywhere in the text)
+            for which in sorted({0, nslots // 2, nslots - 1} - {-1}):
+                for attr in ('alias', 'parentheses'):
+                    M = A.copy()
+                    k = -1
+                    for p, o in monitors.walk(M):
+                        if hasattr(o, 'alias') and hasattr(o, '__dict__') and o is not M:
+                            k += 1
+                            if k == which:
+                                if attr == 'alias':
+                                    o.alias = Identifier('zz_alias')
+                                else:
+                                    o.parentheses = not bool(getattr(o, 'parentheses', False))
+                                break
+                    acc.count('mutated_copies_compared')
+                    fails += eq_laws(A, M, acc, 'tree-vs-mutated-copy')
+                    if (A == M) is True and A.to_string() != M.to_string():
+                        sa, sb = A.to_string(), M.to_string()
+                        at = next((j for j, (x, y) in enumerate(zip(sa, sb)) if x != y), min(len(sa), len(sb)))
+                        fails.append(({'law': 'equal-trees-print-differently', 'changed': attr},
+                                      {'a': sa[max(0, at - 60):at + 60], 'b': sb[max(0, at - 60):at + 60], 'first_difference_at': at, 'length': len(sa)}))
         except Exception:
             pass
         prev = A
